@@ -345,10 +345,37 @@ def scan_sites(txt):
     return out
 
 
+def judge_round(ctx, l, tag, rd, dd, replay, traces):
+    """One build of a scenario: the recording emitter's view (rd) against the default emitter's copy-out (dd). False = violation reported."""
+    if rd['rc'] != '0' or dd['rc'] != '0':
+        ctx.violation('scenario-build-failed', 'builder scenario `%s` round %s failed to build (rc %s / %s)' % (l, tag, rd['rc'], dd['rc']), replay); return False
+    if 'trace' in rd and rd['trace'] != '-' and rd['shape'] == 'ok' and len(traces) < (40 if ctx.thorough else 12): traces.append(rd['trace'])
+    if rd['shape'] != 'ok':
+        ctx.violation('emit-stream-shape', 'builder scenario `%s` round %s: emit call violates the stream shape: %s' % (l, tag, rd['shape']), replay); return False
+    if rd['bstart'] != rd['start'] or rd['bend'] != rd['end']:
+        ctx.violation('buffer-range', 'builder scenario `%s` round %s: flatcc_builder_get_buffer_start/end = %s/%s but the emit calls cover %s..%s'
+                      % (l, tag, rd['bstart'], rd['bend'], rd['start'], rd['end']), replay); return False
+    if not (rd['rsize'] == rd['bsize'] == dd['size']) or int(rd['end']) - int(rd['start']) != int(rd['rsize']):
+        ctx.violation('buffer-size', 'builder scenario `%s` round %s: recorded stream %s bytes, builder reports %s / %s' % (l, tag, rd['rsize'], rd['bsize'], dd['size']), replay); return False
+    if dd['direct'] == 'ne' or (dd['direct'] == 'eq' and dd['dsize'] != rd['rsize']):
+        ctx.violation('direct-buffer-bytes', 'builder scenario `%s` round %s: flatcc_builder_get_direct_buffer differs from the recorded stream' % (l, tag), replay); return False
+    if dd['copyret'] == 'null' or dd['copy'] != 'eq':
+        ctx.violation('copy-buffer-bytes', 'builder scenario `%s` round %s: flatcc_builder_copy_buffer %s' % (l, tag, 'returned null' if dd['copyret'] == 'null' else 'differs from the recorded stream'), replay); return False
+    if dd['copyret'] != '0':
+        ctx.violation('copy-buffer-return-pointer', 'flatcc_builder_copy_buffer returned caller pointer + %s instead of the caller\'s pointer (buffer of %s bytes, scenario `%s` round %s)'
+                      % (dd['copyret'], dd['size'], l, tag), replay)
+    if dd['fin'] != 'eq' or dd['fsize'] != rd['rsize']:
+        ctx.violation('finalize-buffer-bytes', 'builder scenario `%s` round %s: flatcc_builder_finalize_buffer %s (size %s, stream %s)' % (l, tag, dd['fin'], dd['fsize'], rd['rsize']), replay); return False
+    if dd['afin'] != 'eq' or dd['asize'] != rd['rsize'] or dd['aal'] != 'ok':
+        ctx.violation('finalize-aligned-buffer-bytes', 'builder scenario `%s` round %s: flatcc_builder_finalize_aligned_buffer %s (size %s, stream %s, alignment %s)'
+                      % (l, tag, dd['afin'], dd['asize'], rd['rsize'], dd['aal']), replay); return False
+    return True
+
+
 def run_part_b(ctx, consts):
     rng = ctx.rng
     hdir = os.path.join(lib.ROOT, 'harness')
-    srcs = [os.path.join(hdir, 'emit_record.c'), os.path.join(lib.REPO, 'src/runtime/emitter.c'), os.path.join(lib.REPO, 'src/runtime/refmap.c')]
+    srcs = [os.path.join(hdir, 'emit_record.c'), os.path.join(lib.REPO, 'src/runtime/refmap.c')]   # builder.c and emitter.c are included as source
     incs = ['-I%s/src/runtime' % lib.REPO, '-I' + hdir]
     builds = {}
     builds['san'] = lib.Harness(ctx.cc(srcs, os.path.join(ctx.bdir, 'emit_record_san'), san=True, defs=['-DNDEBUG'], incs=incs))
@@ -465,28 +492,7 @@ def run_part_b(ctx, consts):
             if tag != 'A' and rd['shape'].startswith('call0:') and ('-is-not-start' in rd['shape'] or '-is-not-end' in rd['shape']):
                 ctx.violation('reset-does-not-rewind-range', 'builder scenario `%s` round %s (reused builder with a custom emitter after reset): the first emit call does not start from '
                               'origin 0: %s (builder reports start=%s end=%s size=%s)' % (l, tag, rd['shape'], rd['bstart'], rd['bend'], rd['bsize']), replay); break
-            if rd['rc'] != '0' or dd['rc'] != '0':
-                ctx.violation('scenario-build-failed', 'builder scenario `%s` round %s failed to build (rc %s / %s)' % (l, tag, rd['rc'], dd['rc']), replay); break
-            if 'trace' in rd and rd['trace'] != '-' and rd['shape'] == 'ok' and len(traces) < (40 if ctx.thorough else 12): traces.append(rd['trace'])
-            if rd['shape'] != 'ok':
-                ctx.violation('emit-stream-shape', 'builder scenario `%s` round %s: emit call violates the stream shape: %s' % (l, tag, rd['shape']), replay); break
-            if rd['bstart'] != rd['start'] or rd['bend'] != rd['end']:
-                ctx.violation('buffer-range', 'builder scenario `%s` round %s: flatcc_builder_get_buffer_start/end = %s/%s but the emit calls cover %s..%s'
-                              % (l, tag, rd['bstart'], rd['bend'], rd['start'], rd['end']), replay); break
-            if not (rd['rsize'] == rd['bsize'] == dd['size']) or int(rd['end']) - int(rd['start']) != int(rd['rsize']):
-                ctx.violation('buffer-size', 'builder scenario `%s` round %s: recorded stream %s bytes, builder reports %s / %s' % (l, tag, rd['rsize'], rd['bsize'], dd['size']), replay); break
-            if dd['direct'] == 'ne' or (dd['direct'] == 'eq' and dd['dsize'] != rd['rsize']):
-                ctx.violation('direct-buffer-bytes', 'builder scenario `%s` round %s: flatcc_builder_get_direct_buffer differs from the recorded stream' % (l, tag), replay); break
-            if dd['copyret'] == 'null' or dd['copy'] != 'eq':
-                ctx.violation('copy-buffer-bytes', 'builder scenario `%s` round %s: flatcc_builder_copy_buffer %s' % (l, tag, 'returned null' if dd['copyret'] == 'null' else 'differs from the recorded stream'), replay); break
-            if dd['copyret'] != '0':
-                ctx.violation('copy-buffer-return-pointer', 'flatcc_builder_copy_buffer returned caller pointer + %s instead of the caller\'s pointer (buffer of %s bytes, scenario `%s` round %s)'
-                              % (dd['copyret'], dd['size'], l, tag), replay)
-            if dd['fin'] != 'eq' or dd['fsize'] != rd['rsize']:
-                ctx.violation('finalize-buffer-bytes', 'builder scenario `%s` round %s: flatcc_builder_finalize_buffer %s (size %s, stream %s)' % (l, tag, dd['fin'], dd['fsize'], rd['rsize']), replay); break
-            if dd['afin'] != 'eq' or dd['asize'] != rd['rsize'] or dd['aal'] != 'ok':
-                ctx.violation('finalize-aligned-buffer-bytes', 'builder scenario `%s` round %s: flatcc_builder_finalize_aligned_buffer %s (size %s, stream %s, alignment %s)'
-                              % (l, tag, dd['afin'], dd['asize'], rd['rsize'], dd['aal']), replay); break
+            if not judge_round(ctx, l, tag, rd, dd, replay, traces): break
         else:
             if sums.get('A') is not None and sums.get('C') is not None and sums['A'] != sums['C']:
                 ctx.violation('reuse-stream-differs', 'builder scenario `%s`: the reused builder (round C) emits a different stream than the first build of the same calls (round A)' % l, replay)
@@ -513,6 +519,53 @@ def run_part_b(ctx, consts):
                              'a custom' if c[0] else 'the default', c[2], c[3], d['start'], d['end'], d['size'], d['rc']), replay)
         elif 'start=%s end=%s' % (d['start'], d['end']) != m:
             ctx.violation('corr:builder-reset', 'model and implementation disagree on `%s`: impl %s, model %s' % (l, r, m), replay)
+    # ---- object alignments up to 32768: paddings longer than the 512-byte zero block, recording emitter that does not read them
+    als = ['al %d %d' % (a, z) for a in (512, 1024, 4096, 8192, 16384, 32768) for z in (1, 7, 33)]
+    for bname in ('san', 'gcc-O2'):
+        res = lib.run_harness_resilient(builds[bname], als)
+        for l, r in zip(als, res):
+            ctx.count(bname + ' ' + l, klass='large_alignment/%s' % bname)
+            replay = {'harness': 'emit_record', 'build': bname, 'harness_line': l, 'impl': r[:1500]}
+            if r.startswith('CRASH'):
+                m = re.search(r'SUMMARY: \w+: (\S+) \S+ in (\w+)', r) or re.search(r'ERROR: \w+: (\S+) .*? in (\w+) /', r)
+                ctx.violation('emit-stream-shape', 'objects with alignment %s: %s while the iov of an emit call is assembled (more pieces than FLATCC_IOV_COUNT_MAX?) `%s`: %s'
+                              % (l.split()[1], '%s in %s' % (m.group(1), m.group(2)) if m else 'crash', l, r[:200]), replay); continue
+            d = dict(kv.split('=', 1) for kv in r.split())
+            if d['shape'] != 'ok' or d['accepted'] != '3':
+                ctx.violation('emit-stream-shape', 'objects with alignment %s (`%s`): %s, %s of 3 objects created' % (l.split()[1], l, d['shape'], d['accepted']), replay)
+
+    # ---- page allocation failing at the k-th allocation during a build on the default emitter, then reset and reuse: the
+    #      next build must hand back exactly the stream a recording emitter sees (nothing of the failed build survives)
+    afs = []
+    shapes = [(1, P // 2 + 500), (2, 3000), (1, 7000), (3, 40), (2, P // 2 + 1), (1, 2 * P + 100)]
+    for warm in (0, 1):
+        for ns, sl in shapes:
+            for k in range(0, 7 if ctx.thorough else 5):
+                afs.append('af %d %d %d %d %d %d %d %d %d %d %d %d %d' % (warm, k, rng.choice([0, 0, 1, 2, 3]), rng.randrange(2), rng.randrange(2), 1, 0,
+                                                                        rng.choice([0, 1]), ns, sl, rng.choice([0, 10]), rng.choice([5, 100, P]), rng.choice([0, 2, 30])))
+    ares = lib.run_harness_resilient(builds['san'], afs)
+    nreached = 0
+    for l, r in zip(afs, ares):
+        ctx.count(l, klass='alloc_fail_then_reuse')
+        replay = {'harness': 'emit_record', 'build': 'san', 'harness_line': l, 'impl': r[:3000]}
+        if r.startswith('CRASH') or r == 'BAD':
+            m = re.search(r'SUMMARY: \w+: (\S+) \S+ in (\w+)', r) or re.search(r'ERROR: \w+: (\S+) .*? in (\w+) /', r)
+            ctx.violation('crash:alloc-fail-reuse' + (':%s:%s' % (m.group(1), m.group(2)) if m else ''), 'sanitizer report / crash in `%s`: %s' % (l, r[:300]), replay); continue
+        segs = [x.strip() for x in r.split(' | ')]
+        fd = dict(kv.split('=', 1) for kv in [x for x in segs if x.startswith('fail ')][0].split()[1:])
+        if fd['reached'] == '1':
+            nreached += 1
+            if fd['rc'] == '0':
+                ctx.violation('alloc-failure-not-reported', 'scenario `%s`: a page allocation failed during the build but every builder call reported success' % l, replay); continue
+        if fd['reset'] != '0':
+            ctx.violation('builder-reset-failed', 'scenario `%s`: reset after the failed build returned %s' % (l, fd['reset']), replay); continue
+        rec = [x for x in segs if x[1:5] == ':rec'][0]; de = [x for x in segs if x[1:5] == ':def'][0]
+        rd = dict(kv.split('=', 1) for kv in rec.split()[1:]); dd = dict(kv.split('=', 1) for kv in de.split()[1:])
+        before = len(ctx.violations)
+        ok2 = judge_round(ctx, l, 'after-failed-build', rd, dd, replay, [])
+        if segs[-1] != 'live=0':
+            ctx.violation('clear-leaks-pages', 'scenario `%s`: pages still allocated after flatcc_builder_clear: %s' % (l, segs[-1]), replay)
+    ctx.log('alloc-fail-then-reuse: %d scenarios, allocation failure reached in %d' % (len(afs), nreached))
     if inventory_problem:
         shape_keys = ('emit-stream-shape', 'emit-pieces', 'emit-empty-call', 'emit-front-', 'emit-back-', 'reset-does-not-rewind-range', 'buffer-size', 'buffer-range')
         if not any(v['key'].startswith(shape_keys) for v in ctx.violations):
